@@ -101,9 +101,9 @@ TOp == /\ Is("op")
              /\ st' = IF e.op = "Open" THEN (IF e.err = "ok" THEN "open" ELSE "closed")
                       ELSE IF e.op = "Close" /\ e.err = "ok" THEN "closed" ELSE st
              /\ maxlim' = IF e.op = "Open" /\ e.cfg.limit > maxlim THEN e.cfg.limit ELSE maxlim
-             \* Merge rotates the active file first: the first file that does not take part is the next id.
-             \* A failed Merge leaves nothing that the checks below may rely on.
-             /\ mg' = IF e.op = "Merge" THEN (IF e.err = "ok" THEN [on |-> TRUE, nm |-> lastact + 1, snap |-> model] ELSE NoMg)
+             \* The first file that did not take part in a Merge is the active file right after it (taken from
+             \* the next dump, nm = -1 until then). A failed Merge leaves nothing that the checks below may rely on.
+             /\ mg' = IF e.op = "Merge" THEN (IF e.err = "ok" THEN [on |-> TRUE, nm |-> -1, snap |-> model] ELSE NoMg)
                       ELSE mg
              /\ hist' = IF e.op \in {"Put", "BPut"} /\ e.k \in K THEN [hist EXCEPT ![e.k] = @ \cup {e.v}] ELSE hist
        /\ l' = l + 1 /\ nops' = nops + 1
@@ -151,14 +151,17 @@ TDump ==
         \* files below the first non-participating id hold exactly one plain put per key that was live at
         \* the merge, with the value it had then (the sequential driver has no racing writer)
         /\ Must("nomdir", e.rescan => \A i \in 1..Len(e.mdir) : e.mdir[i] # "000000000.merge-finished")
-        /\ Must("adopted", (e.rescan /\ mg.on) =>
+        /\ Must("adopted", (e.rescan /\ mg.on /\ mg.nm >= 0) =>
                LET low == SelectSeq(e.scan, LAMBDA r : r.f < mg.nm) IN
                /\ Len(e.mdir) = 0
                /\ Len(low) = Cardinality(Live(mg.snap))
                /\ \A i \in 1..Len(low) : /\ low[i].t = 0 /\ low[i].bt = 0 /\ low[i].k \in K
                                           /\ low[i].v = mg.snap[low[i].k]
                /\ \A i, j \in 1..Len(low) : i # j => low[i].k # low[j].k)
-        /\ mg' = IF e.rescan THEN NoMg ELSE mg
+        /\ mg' = IF e.rescan THEN NoMg
+                 ELSE IF mg.on /\ mg.nm = -1 /\ \E i \in 1..Len(e.files) : e.files[i].active = 1
+                      THEN [mg EXCEPT !.nm = e.files[CHOOSE i \in 1..Len(e.files) : e.files[i].active = 1].id]
+                 ELSE mg
         /\ lastact' = IF \E i \in 1..Len(e.files) : e.files[i].active = 1
                        THEN e.files[CHOOSE i \in 1..Len(e.files) : e.files[i].active = 1].id
                        ELSE lastact
@@ -217,7 +220,9 @@ OrigOf(name) == LET S == {i \in 1..Len(orig) : orig[i].name = name} IN
 TDamage ==
   /\ Is("damage") /\ st = "closed"
   /\ LET e == E
-         strict == e.kind = "flip"
+         \* a damaged final record of the newest data file is indistinguishable from a torn write, which recovery
+         \* may legitimately drop (C03): there the wider rule applies
+         strict == e.kind = "flip" /\ ~e.tail
          okErr(x) == x \notin {"panic", "stuck"}
          valOK(k) == \/ e.vals[k] = model[k]
                      \/ (e.vals[k] = -2 /\ okErr(e.geterrs[k]))                        \* an error other than not-found
